@@ -38,6 +38,7 @@ def run(chk: Check) -> None:
     run_shift_guards(chk, ix)
     run_literal_conversion(chk, ix)
     run_floor_of_inexact_quotient(chk, ix)
+    run_floor_divide_strength_reduction(chk, ix)
 
     r1 = chk.rule("R15.1", "every emission of a raw C division/modulo IntOp is guarded against a zero divisor (and -1 for signed operands)", floor=4)
     llb = ix.cls("mypyc.irbuild.ll_builder.LowLevelIRBuilder")
@@ -376,3 +377,97 @@ def run_floor_of_inexact_quotient(chk: Check, ix) -> None:
                 r.violation(key, f"mypyc/lib-rt:{name}", f"`{s['var']}` comes out of a floating division and is only approximately integral; the function floors it and never compares `{s['var']} - floor({s['var']})` with 0.5: when the division lands one ulp below an integer the result is 1.0 too small")
     if n < 1:
         raise AnalysisError("no floor() of a computed quotient found in lib-rt (float_ops.c _float_div_mod had one)")
+
+
+def run_floor_divide_strength_reduction(chk: Check, ix) -> None:
+    """R15.11: `x // d` is rewritten to `x >> k` only for d == 2**k."""
+    r = chk.rule("R15.11", "irbuild/expression.try_optimize_int_floor_divide replaces `x // d` by `x >> k` for a constant divisor; the two agree for every int x exactly when d == 2**k (in particular d > 0: `x // -8` is not `x >> 3`). The guard of the rewrite and the definition of the shift are small pure integer expressions over the constant; they are evaluated for a set of divisors around every sign and power-of-two boundary (no program is run), and wherever the guard holds the divisor must equal 1 << shift", floor=1)
+    f = ix.func("mypyc.irbuild.expression.try_optimize_int_floor_divide")
+    rewrite = None
+    for i in ast.walk(f.node):
+        if isinstance(i, ast.If) and any(isinstance(c, ast.Call) and call_name(c) == "OpExpr" and c.args and isinstance(c.args[0], ast.Constant) and c.args[0].value == ">>" for s in i.body for c in ast.walk(s)):
+            rewrite = i
+    if rewrite is None:
+        raise AnalysisError("try_optimize_int_floor_divide: the rewrite to `>>` was not found")
+    # which local is the shift count handed to IntExpr(...), and which name is the divisor?
+    shift_names = [norm(c.args[0]) for s in rewrite.body for c in ast.walk(s) if isinstance(c, ast.Call) and call_name(c) == "IntExpr" and c.args]
+    if not shift_names:
+        raise AnalysisError("try_optimize_int_floor_divide: IntExpr(<shift>) not found in the rewrite")
+    shift_name = shift_names[0]
+    defs = {norm(a.targets[0]): a.value for a in f.node.body if isinstance(a, ast.Assign) and len(a.targets) == 1 and isinstance(a.targets[0], ast.Name)}
+    div_name = next((n for n, v in defs.items() if isinstance(v, ast.Call) and "constant_fold" in norm(v.func)), None)
+    if div_name is None or shift_name not in defs:
+        raise AnalysisError("try_optimize_int_floor_divide: divisor / shift definitions not recognised")
+
+    class Unknown(Exception):
+        pass
+    allowed_methods = {"bit_length", "bit_count", "__abs__"}
+
+    def ev(e, env):
+        if isinstance(e, ast.Constant) and isinstance(e.value, (int, bool)):
+            return e.value
+        if isinstance(e, ast.Name):
+            if e.id in env:
+                return env[e.id]
+            if e.id in defs and e.id != div_name:
+                return ev(defs[e.id], env)
+            raise Unknown(e.id)
+        if isinstance(e, ast.UnaryOp):
+            v = ev(e.operand, env)
+            return {ast.Not: lambda x: not x, ast.USub: lambda x: -x, ast.Invert: lambda x: ~x, ast.UAdd: lambda x: +x}[type(e.op)](v)
+        if isinstance(e, ast.BinOp):
+            a, b = ev(e.left, env), ev(e.right, env)
+            ops = {ast.Add: lambda: a + b, ast.Sub: lambda: a - b, ast.Mult: lambda: a * b, ast.LShift: lambda: a << b if 0 <= b < 4096 else (_ for _ in ()).throw(Unknown("shift")), ast.RShift: lambda: a >> b if 0 <= b < 4096 else (_ for _ in ()).throw(Unknown("shift")), ast.BitAnd: lambda: a & b, ast.BitOr: lambda: a | b, ast.BitXor: lambda: a ^ b, ast.Pow: lambda: a ** b if 0 <= b < 4096 else (_ for _ in ()).throw(Unknown("pow")), ast.FloorDiv: lambda: a // b, ast.Mod: lambda: a % b}
+            if type(e.op) not in ops:
+                raise Unknown(norm(e))
+            return ops[type(e.op)]()
+        if isinstance(e, ast.BoolOp):
+            if isinstance(e.op, ast.And):
+                res = True
+                for v in e.values:
+                    res = ev(v, env)
+                    if not res:
+                        return res
+                return res
+            res = False
+            for v in e.values:
+                res = ev(v, env)
+                if res:
+                    return res
+            return res
+        if isinstance(e, ast.Compare):
+            left = ev(e.left, env)
+            for op, c in zip(e.ops, e.comparators):
+                right = ev(c, env)
+                ok = {ast.Eq: left == right, ast.NotEq: left != right, ast.Lt: left < right, ast.LtE: left <= right, ast.Gt: left > right, ast.GtE: left >= right}.get(type(op))
+                if ok is None:
+                    raise Unknown(norm(e))
+                if not ok:
+                    return False
+                left = right
+            return True
+        if isinstance(e, ast.Call) and isinstance(e.func, ast.Attribute) and e.func.attr in allowed_methods and not e.args:
+            v = ev(e.func.value, env)
+            return getattr(int(v), e.func.attr)()
+        if isinstance(e, ast.Call) and isinstance(e.func, ast.Name) and e.func.id == "abs" and len(e.args) == 1:
+            return abs(ev(e.args[0], env))
+        raise Unknown(norm(e)[:40])
+    samples = sorted({s * v for v in ([0, 1, 2, 3, 4, 5, 6, 7, 8, 9, 12, 16, 24, 1 << 20, (1 << 20) + 1, 1 << 26, 1 << 27, (1 << 27) - 1, 1 << 28, 1 << 29, 1 << 40, 1 << 62, 1 << 63, 1 << 64]) for s in (1, -1)})
+    key = "try_optimize_int_floor_divide: the rewrite to `>> k` is taken only for the divisor 2**k"
+    bad = []
+    try:
+        for d in samples:
+            env = {div_name: d}
+            if d == 0:
+                continue
+            if ev(rewrite.test, env):
+                k = ev(defs[shift_name], env)
+                if not (isinstance(k, int) and k >= 0 and d == (1 << k)):
+                    bad.append((d, k))
+    except Unknown as u:
+        raise AnalysisError(f"try_optimize_int_floor_divide: cannot evaluate `{u}` in the guard `{norm(rewrite.test)}`")
+    if not bad:
+        r.ok(key, f.loc(rewrite), f"guard `{norm(rewrite.test)}` evaluated for {len(samples)} divisors")
+    else:
+        d, k = bad[0]
+        r.violation(key, f.loc(rewrite), f"for the divisor {d} the guard `{norm(rewrite.test)}` holds and the shift is {k}, but {d} != 1 << {k}: `x // {d}` is compiled to `x >> {k}` (17 // {d} = {17 // d}, 17 >> {k} = {17 >> k if isinstance(k, int) and 0 <= k < 64 else '?'})")
